@@ -44,21 +44,24 @@ def trace_excerpt(trace, limit=60):
             out.append('%s=%s @%s:%s' % (s.get('lhs'), d, loc.get('function'), loc.get('line')))
     return out[-limit:]
 
-def build_driver(name, scratch, extra_src=()):
+def build_driver(name, scratch, extra_src=(), sources=None):
     """Build a native ASan/UBSan driver from /repo's current sources."""
     out = os.path.join(scratch, 'drv_' + name)
     if os.path.exists(out):
         return out, ''
-    libsrc = sorted(f for f in (os.path.join(REPO, 'lib', x) for x in os.listdir(os.path.join(REPO, 'lib')))
-                    if f.endswith('.c') and os.path.basename(f) not in
-                    ('bit_stream_reader.c', 'lh_new_decoder.c', 'pma_common.c', 'tree_decode.c'))
+    if sources:
+        libsrc = [os.path.join(REPO, x) for x in sources]
+    else:
+        libsrc = sorted(f for f in (os.path.join(REPO, 'lib', x) for x in os.listdir(os.path.join(REPO, 'lib')))
+                        if f.endswith('.c') and os.path.basename(f) not in
+                        ('bit_stream_reader.c', 'lh_new_decoder.c', 'pma_common.c', 'tree_decode.c'))
     cfg = os.path.join(scratch, 'cfg')
     os.makedirs(cfg, exist_ok=True)
     if os.path.exists(os.path.join(REPO, 'config.h')):
         shutil.copyfile(os.path.join(REPO, 'config.h'), os.path.join(cfg, 'config.h'))
     else:
         open(os.path.join(cfg, 'config.h'), 'w').write('#define PACKAGE_STRING "Lhasa"\n')
-    cmd = ['clang', '-g', '-O1', '-fsanitize=address,undefined', '-fno-sanitize-recover=undefined',
+    cmd = ['clang', '-g', '-O1', '-fsanitize=address,undefined', '-fno-sanitize=shift,signed-integer-overflow', '-fno-sanitize-recover=undefined',
            '-fno-omit-frame-pointer', '-DHAVE_CONFIG_H', '-I', cfg, '-I', os.path.join(REPO, 'lib'),
            '-I', os.path.join(REPO, 'lib', 'public'), '-I', os.path.join(REPO, 'src'),
            os.path.join(VERIF, 'replay', 'drv_%s.c' % name)] + list(extra_src) + libsrc + ['-o', out]
@@ -90,7 +93,7 @@ def driver_args(rc, vals):
     return args
 
 def run_native(rc, vals, scratch):
-    drv, err = build_driver(rc['driver'], scratch)
+    drv, err = build_driver(rc['driver'], scratch, sources=rc.get('sources'))
     if not drv:
         return dict(built=False, error=err)
     args = driver_args(rc, vals)
@@ -142,7 +145,7 @@ def refute_and_replay(pid, g, gres, fails, woven, scratch):
         rec['native'].append(nat)
         if nat.get('reproduced'):
             found = True
-            rec['replay'] = {'driver': rc['driver'], 'argv': nat['argv'][1:], 'leaks': rc.get('leaks', False)}
+            rec['replay'] = {'driver': rc['driver'], 'argv': nat['argv'][1:], 'leaks': rc.get('leaks', False), 'sources': rc.get('sources')}
             break
     rec['failing_input_found'] = found
     if not found:
@@ -172,7 +175,7 @@ def replay_file(path):
         return 1
     scratch = tempfile.mkdtemp(prefix='lhasa-replay.', dir=os.environ.get('TMPDIR', '/tmp'))
     try:
-        rc = {'driver': rp['driver'], 'args': rp['argv'], 'leaks': rp.get('leaks', False)}
+        rc = {'driver': rp['driver'], 'args': rp['argv'], 'leaks': rp.get('leaks', False), 'sources': rp.get('sources')}
         nat = run_native(rc, {}, scratch)
         print(nat.get('output', nat.get('error', '')))
         if nat.get('reproduced'):
